@@ -234,7 +234,7 @@ Section AdminCalls.
     unfold remove. cbv zeta. facts name SlLstat. set (r := search_node s v name SlLstat) in *.
     destruct (sr_child r) as [c|]; [|cl0]. destruct (sr_parent r) as [parent|] eqn:Hp; [|cl0].
     destruct (negb (is_file_exists _)); [cl0|]. destruct (Nat.eqb parent c); [cl0|].
-    rewrite (admin_perm_on_dir _ _ _ _ Ha (F1 _ eq_refl)). cbn [negb].
+    rewrite (admin_perm_on_dir _ _ _ _ Ha (F1 _ eq_refl)), (sticky_admin _ _ _ _ Ha). cbn [negb].
     destruct (get (f_heap s) c) as [[[|? ?] m|d k i m|t m]|]; try cl0; destruct (alookup _ _ _); cl0.
   Qed.
 
@@ -265,14 +265,15 @@ Section AdminCalls.
     destruct (_ && _); [cl0|]. destruct (_ && _); [cl0|].
     destruct (sr_parent ro) as [op|] eqn:Hop; [|cl0]. destruct (sr_child ro) as [oc|]; [|cl0].
     destruct (sr_parent rn) as [np|] eqn:Hnp; [|destruct (is_not_exist (sr_err rn)); cl0].
-    rewrite (admin_perm_on_dir _ _ _ _ Ha (F1 _ eq_refl)), (admin_perm_on_dir _ _ _ _ Ha (G1 _ eq_refl)). cbn [negb]. rewrite andb_false_r.
+    rewrite (admin_perm_on_dir _ _ _ _ Ha (F1 _ eq_refl)), (admin_perm_on_dir _ _ _ _ Ha (G1 _ eq_refl)), (sticky_admin _ _ _ _ Ha).
+    cbn [negb]. rewrite !andb_false_r.
     destruct (get (f_heap s) oc) as [[ch m|d k i m|t m]|].
     - destruct (_ && _).
       + destruct (_ && _); [cl0|]. destruct (win v); cl0.
       + destruct (_ || _); [cl0|]. destruct (negb _); cl0.
-    - destruct (_ || _); [cl0|]. destruct (sr_child rn) as [nc|]; [|cl0].
+    - destruct (_ || _); [cl0|]. destruct (sr_child rn) as [nc|]; [|cl0]. rewrite (sticky_admin _ _ _ _ Ha).
       destruct (get (f_heap s) nc) as [[? ?|? ? ? ?|? ?]|]; cl0.
-    - destruct (_ || _); [cl0|]. destruct (sr_child rn) as [nc|]; [|cl0].
+    - destruct (_ || _); [cl0|]. destruct (sr_child rn) as [nc|]; [|cl0]. rewrite (sticky_admin _ _ _ _ Ha).
       destruct (get (f_heap s) nc) as [[? ?|? ? ? ?|? ?]|]; cl0.
     - cl0.
   Qed.
